@@ -104,6 +104,41 @@ def main():
         fail("self_name_reenters_the_function", got=out(lambda: selfref([1])))
     if out(lambda: sv([1])) != ["self.int"]:  # the parent's *name* keeps denoting the parent
         fail("parent_name_inside_inherited_method_denotes_the_parent", got=out(lambda: sv([1])))
+    # 4c. the explicit style: the name is bound to the Ovld OBJECT (f = Ovld(); @f.register def f ...; @f.variant def f ...)
+    #     and rebound by every variant; each function keeps re-entering itself, used alternately, twice over
+    import linecache
+
+    src = (
+        "from ovld import Ovld\n"
+        "walk = Ovld()\n"
+        "@walk.register\ndef walk(xs: list):\n    return [walk(x) for x in xs]\n"
+        "@walk.register\ndef walk(x: int):\n    return x + 1\n"
+        "@walk.register\ndef walk(x: object):\n    return x\n"
+        "plain = walk\nfirst = [plain(SAMPLE)]\n"
+        "@plain.variant\ndef walk(x: int):\n    return -x\n"
+        "neg = walk\nfirst.append(neg(SAMPLE))\n"
+        "@plain.variant\ndef walk(x: int):\n    return x * 10\n"
+        "tens = walk\nfirst.append(tens(SAMPLE))\n"
+        "@neg.variant\ndef walk(x: str):\n    return x.upper()\n"
+        "shout = walk\nfirst.append(shout(SAMPLE))\n"
+    )
+    fname = "<c08:explicit_style>"
+    linecache.cache[fname] = (len(src), None, src.splitlines(True), fname)
+    ns = {"SAMPLE": [1, "a", [2, [3, "b"]]]}
+    n += 1
+    try:
+        exec(compile(src, fname, "exec"), ns)
+        want = dict(plain=[2, "a", [3, [4, "b"]]], neg=[-1, "a", [-2, [-3, "b"]]], tens=[10, "a", [20, [30, "b"]]], shout=[-1, "A", [-2, [-3, "B"]]])
+        order = ["plain", "neg", "tens", "shout"]
+        if ns["first"] != [want[k] for k in order]:
+            fail("name_bound_to_the_ovld_object_reenters_the_function", when="first call", got=ns["first"])
+        for k in order + order[::-1]:
+            n += 1
+            got = out(lambda: ns[k](ns["SAMPLE"]))
+            if got != want[k]:
+                fail("name_bound_to_the_ovld_object_reenters_the_function", which=k, got=got, want=want[k])
+    except Exception as e:
+        fail("name_bound_to_the_ovld_object_reenters_the_function", error=f"{type(e).__name__}: {e}"[:120])
     # 5. a method registered (through a bound register function) while a call of the same function is in flight is
     #    seen by a later recurse in that call: recurse(x) behaves exactly like calling the function again
     late = base("late")
